@@ -24,7 +24,7 @@ RULES = {
           "dimension d to max(t + d, 1); AlignedPadding.relative is `not width > 0 < height`; resolve() rebuilds the padding with every other "
           "field (alignments, fill) preserved",
     "R4": "alignment table: _ALIGN_RATIOS has one row per HAlign/VAlign member (0, 1/2, 1 for members 0, 1, 2); left = pad*n//d, right = pad-left "
-          "and the same shape for top/bottom (the remainder goes to the far side, sizes add up)",
+          "and the same shape for top/bottom (the remainder goes to the far side, sizes add up); the minimum of an axis is compared with the same axis of the render size",
     "R6": "the size advertised for a padded frame is the size pad() produces: the iterator computes its padded size with the stored (resolved) "
           "padding from the size frames are rendered at, and pads after the cache so no frame is padded twice (shared with C08.R6 / C09.R2)",
     "R5": "one source of truth: render(), draw() and the iterator pad iff the padded size (from the same padding and the frame's own size) differs from the render size and pass the unpadded output and size to pad(); the symbolic output shapes of Padding.pad and of the old-API _format_render have, in every case of fill x alignment x which margins are zero, left+right margins = width - cols and top+bottom = height - lines (centre: near = n//2), full-width padding lines, and right-padding / newline / left-padding inside every line break; sizes are never ordered lexicographically (`(w, h) <= (cols, lines)`): per-axis comparisons only",
